@@ -222,6 +222,7 @@ theorem OInv.step {g g' : GState} {e : Ev} (ho : OInv g) (hk : KInv g.s) (hi : H
     · rw [upd_ne _ _ e]
   | joinFail a h => obtain ⟨_, _, _, _, _, e'⟩ := joinFail_ok hs; rw [e']; exact ho.frame (fun _ => rfl) rfl (Nat.le_refl _) rfl
   | tlsFail t k gt => obtain ⟨_, _, _, _, _, e'⟩ := tlsFail_ok hs; rw [e']; exact ho.frame (fun _ => rfl) rfl (Nat.le_refl _) rfl
+  | storeFail t k r => obtain ⟨n, _, _, _, _, _, e'⟩ := storeFail_ok hs; rw [e']; exact ho.frame (fun _ => rfl) rfl (Nat.le_refl _) rfl
   | startUnstored t =>
     obtain ⟨h, _, _, _, _, _, _, e'⟩ := startUnstored_ok hs; rw [e']
     refine ho.frame ?_ rfl (Nat.le_refl _) rfl
